@@ -74,6 +74,7 @@ Section JsOracle.
 Variable js_flt : Type.
 Variable js_fprint : js_flt -> list Z.
 Variable js_fparse : list Z -> option js_flt.
+Variable js_lim : option Z.
 Variable js_feqb : js_flt -> js_flt -> bool.
 Variable js_fofz : Z -> js_flt.            (* (double)z, correctly rounded: the Value a JsNum stands for *)
 
@@ -121,14 +122,14 @@ Definition js_oracle_rt (v : js_value js_flt) (decoded : option (js_value js_flt
 
 (* arbitrary bytes: error or value exactly as established for the model *)
 Definition js_oracle_dec (input : list Z) (decoded : option (js_value js_flt)) : bool :=
-  match js_decode _ js_fparse input, decoded with
+  match js_decode _ js_fparse js_lim input, decoded with
   | Some a, Some b => js_value_eqb a b
   | None, None => true
   | _, _ => false
   end.
 
 Definition js_oracle_msg (input : list Z) (decoded : option (js_value js_flt)) : bool :=
-  match js_decode_message _ js_fparse input, decoded with
+  match js_decode_message _ js_fparse js_lim input, decoded with
   | Some a, Some b => js_value_eqb a b
   | None, None => true
   | _, _ => false
